@@ -2,6 +2,8 @@ CONSTANTS
   GC = FALSE
   Broken = "none"
   MaxLen = 2
+  Family = "syntax"
+  SharedFiles = FALSE
   SharedSyntax = FALSE
 SPECIFICATION Spec
 INVARIANT Isolated
